@@ -6,6 +6,26 @@ COMMON_ASSUMPTIONS = [
     "worker built from /repo's current working tree with opt-level=2, debug-assertions and overflow-checks on, feature verif-hooks",
 ]
 
+def _per_tier(common, key, quick, thorough):
+    """Floors that are the same in both tiers except for one class set (the exhaustive bounds)."""
+    q = dict(common)
+    q[key] = quick
+    t = dict(common)
+    t[key] = thorough
+    return {"quick": q, "thorough": t}
+
+
+_C17_RULES = [
+    "ExecutableDefinitions", "OperationNameUniqueness", "LoneAnonymousOperation", "UndefinedRootOperationType",
+    "SingleRootField", "SubscriptionRootSkipInclude", "FieldsOnCorrectType", "OverlappingFieldsCanBeMerged",
+    "ScalarLeafs", "KnownArgumentNames", "UniqueArgumentNames", "ProvidedRequiredArguments",
+    "FragmentNameUniqueness", "FragmentSpreadTypeExistence", "FragmentsOnCompositeTypes", "NoUnusedFragments",
+    "KnownFragmentNames", "NoFragmentCycles", "PossibleFragmentSpreads", "ValuesOfCorrectType",
+    "UniqueInputFieldNames", "KnownDirectives", "UniqueDirectivesPerLocation", "UniqueVariableNames",
+    "VariablesAreInputTypes", "NoUndefinedVariables", "NoUnusedVariables", "VariablesInAllowedPosition",
+]
+
+
 META = {
     "C01": {
         "budget": {"quick": 45, "thorough": 600},
@@ -212,6 +232,447 @@ META = {
                       "@deprecated(reason: null) and @specifiedBy on a scalar extension are don't-care bands (graphql-js v16 and the specification text differ) and are not generated. "
                       "interfaces and possibleTypes are compared in order (both sides: definition order), nothing is compared as a set. On the parsed path (corpus, smith, replays) the model is converted from apollo's own AST.",
         "design_ref": "DESIGN.md section 6, C24",
+    },
+    "C08": {
+        "budget": {"quick": 40, "thorough": 480},
+        "rule": "inputs: every corpus file, model documents (random ast::Document values covering all 17 definition/extension kinds, directives at every location, "
+                "all value kinds nested, the shorthand-query placement scenarios) printed by the harness's own printer with random trivia and, as a second route, by apollo-rs itself, "
+                "apollo-smith output for random bytes, and token mutants of all of these; only inputs that ast::Document::parse accepts WITHOUT errors reach the oracle (the rest is counted). "
+                "Each accepted document d is serialized with 22 configurations (default and no_indent, each also with initial_indent_level 1 and 3; indent_prefix in {'', ' ', tab, 4 spaces, ' '+tab} x initial_indent_level in {0,1,3}; indent_prefix('  ') at level 0): "
+                "parse(ser(d)) must have no errors and equal d, and ser(parse(ser(d))) must equal ser(d) byte-wise. "
+                "evaluations = input texts; distinct_nontrivial = distinct texts that parsed without errors (each round-tripped under all 22 configurations; counter config_roundtrips)",
+        "assumptions": COMMON_ASSUMPTIONS + [
+            "equality of documents is ast::Document's PartialEq (definitions compared, source locations ignored), as the property states",
+            "indent prefixes are GraphQL WhiteSpace (space, tab) only",
+            "documents on which the parser itself panics are C01's business and are skipped (counted)",
+        ],
+        "floors": {"any": {
+            "source": ["corpus", "model", "model_printed_by_apollo", "smith", "corpus_mutant", "generated_mutant"],
+            "feature": ["def:OperationDefinition", "def:FragmentDefinition", "def:DirectiveDefinition", "def:SchemaDefinition", "def:ScalarTypeDefinition",
+                        "def:ObjectTypeDefinition", "def:InterfaceTypeDefinition", "def:UnionTypeDefinition", "def:EnumTypeDefinition", "def:InputObjectTypeDefinition",
+                        "def:SchemaExtension", "def:ScalarTypeExtension", "def:ObjectTypeExtension", "def:InterfaceTypeExtension", "def:UnionTypeExtension",
+                        "def:EnumTypeExtension", "def:InputObjectTypeExtension",
+                        "op:shorthand-eligible-first", "op:shorthand-eligible-not-first", "op:anonymous-after-described-definition",
+                        "op:anonymous-with-directives", "op:anonymous-with-variables",
+                        "directive-at:QUERY", "directive-at:MUTATION", "directive-at:SUBSCRIPTION", "directive-at:FIELD", "directive-at:FRAGMENT_DEFINITION",
+                        "directive-at:FRAGMENT_SPREAD", "directive-at:INLINE_FRAGMENT", "directive-at:VARIABLE_DEFINITION", "directive-at:SCHEMA", "directive-at:SCALAR",
+                        "directive-at:OBJECT", "directive-at:FIELD_DEFINITION", "directive-at:ARGUMENT_DEFINITION", "directive-at:INTERFACE", "directive-at:UNION",
+                        "directive-at:ENUM", "directive-at:ENUM_VALUE", "directive-at:INPUT_OBJECT", "directive-at:INPUT_FIELD_DEFINITION",
+                        "value-nested:Null", "value-nested:Enum", "value-nested:Variable", "value-nested:String", "value-nested:Float", "value-nested:Int",
+                        "value-nested:Boolean", "value-nested:List", "value-nested:Object",
+                        "default-at:VARIABLE_DEFINITION", "default-at:INPUT_FIELD_DEFINITION", "default-at:ARGUMENT_DEFINITION"],
+        }},
+        "technique": "runtime monitoring: metamorphic round-trip oracle (parse . serialize = id, serialize idempotent) over corpus, generated and mutated documents x 22 serialization configurations",
+        "level_text": "Exploration: the round-trip relation is checked on 10^4-10^6 distinct error-free documents x 22 configurations, generated so that every definition kind, directive location, value kind and shorthand-placement case occurs in every run; the universally quantified claim is sampled, not proved.",
+        "level_note": "Trusts ast::Document's PartialEq as the notion of equal ASTs (the property's own notion). A structural diff written in the harness only names the first differing component for the signature; it is not part of the verdict.",
+        "design_ref": "DESIGN.md section 6, C08",
+    },
+    "C09": {
+        "budget": {"quick": 40, "thorough": 420},
+        "rule": "a host ast::Document is built programmatically (no parsing) with the string S in each of its 78 string slots: descriptions of schema definition, object/interface/union/scalar/enum/input types, "
+                "fields, field arguments, enum values, input fields, directive definitions and their arguments; string values as directive arguments (on schema, types, fields, arguments, enum values, operations, "
+                "variables, selections, fragments), as field arguments in operations and fragments, as default values of variables, input fields and argument definitions, each also inside a list, inside an object "
+                "and nested two levels deeper; the host is serialized with 21 configurations, re-parsed, and every slot (located by the harness's own AST walk) must read back exactly S. "
+                "Every 4th random case puts S in a single random slot only. S: ALL strings over {quote, backslash, LF, CR, space, tab, a, e-acute} up to length 5 (quick) / 6 (thorough), then random Unicode "
+                "weighted to quotes, backslashes, C0 controls, U+007F, U+2028/9, U+0085, BOM, triple quotes, leading/trailing whitespace, common indentation, trailing quote/backslash, byte lengths 66..75. "
+                "evaluations = (S, layout) cases, each under all 21 configurations; distinct_nontrivial = distinct S that need escaping or block-string care "
+                "(contain a quote, backslash, control or line terminator, U+007F/2028/2029/0085/FEFF, start or end with whitespace, or are longer than 70 bytes)",
+        "assumptions": COMMON_ASSUMPTIONS + [
+            "the property is about strings only: names, numbers and structure of the host are fixed and valid",
+            "indent prefixes are GraphQL WhiteSpace (space, tab) only",
+        ],
+        "floors": _per_tier({
+            "source": ["exhaustive", "random"],
+            "layout": ["every-slot", "single-slot"],
+            "slot": ["description:schema", "description:object", "description:object.field", "description:object.field.argument", "description:enum.value",
+                     "description:directive-definition", "description:directive-definition.argument", "description:input-object.field", "description:interface",
+                     "description:union", "description:scalar", "description:enum", "description:input-object",
+                     "directive-argument:object", "directive-argument:object/list", "directive-argument:object/object",
+                     "field-argument:operation", "field-argument:operation/list", "field-argument:operation/object",
+                     "default-value:operation.variable", "default-value:operation.variable/list", "default-value:operation.variable/object",
+                     "default-value:input-object.field", "default-value:input-object.field/list", "default-value:input-object.field/object"],
+            "string_feature": ["quote", "triple-quote", "four-quotes", "backslash", "LF", "CR", "CRLF", "C0-control", "U+007F", "U+2028", "leading-whitespace",
+                               "trailing-whitespace", "leading-LF", "trailing-LF", "trailing-quote", "trailing-backslash", "common-indent", "whitespace-only-line",
+                               "len-70", "len-just-above-70", "len-long", "astral"],
+        }, "exhaustive", ["complete:len<=5"], ["complete:len<=6"]),
+        "exhaustive_subspaces": {
+            "quick": ["all 37449 strings of length <= 5 over {\", \\, LF, CR, space, tab, a, e-acute} x 78 slots x 21 configurations"],
+            "thorough": ["all 299593 strings of length <= 6 over {\", \\, LF, CR, space, tab, a, e-acute} x 78 slots x 21 configurations"],
+        },
+        "technique": "runtime monitoring: identity oracle on strings through serialize -> parse, bounded-exhaustive enumeration plus weighted random Unicode, 78 AST positions x 21 configurations",
+        "level_text": "Exploration with a bounded-exhaustive core: every string up to the stated length over the 8 characters that drive quoting decisions is checked in every slot and configuration; beyond that bound, random Unicode strings sample the claim.",
+        "level_note": "Reading back goes through apollo-parser's string decoding (that is the property: 'parses back to exactly the same string'); a decoding defect (C06) would show here too, with a reparse-side signature.",
+        "design_ref": "DESIGN.md section 6, C09",
+    },
+    "C10": {
+        "budget": {"quick": 30, "thorough": 300},
+        "rule": "names: all strings of length <= 5 over {a Z _ 0 9 e-acute - space}, the empty string, every BMP scalar (and every 251st astral one) alone, after `a` and between underscores, 36 odd ones and names of 255..10^6 bytes, through Name::new, new_static, TryFrom<&str|String|&String|Arc<str>>, "
+                "is_valid_syntax and serde Deserialize (from_value and from_str), judged by a hand-written byte matcher for [_A-Za-z][_0-9A-Za-z]*; "
+                "numeric literals: all strings of length <= 5 (quick) / 6 (thorough) over {0 1 9 - + . e E a space} plus 70 boundary lexemes and very long digit runs, through serde Deserialize of IntValue and FloatValue, "
+                "judged by hand-written matchers of the IntValue / FloatValue grammar; i32: boundaries + 10^6 random (quick), ALL 2^32 values (thorough): From<i32> gives a valid Int literal with try_to_i32()==Ok(i); "
+                "f64: +-0, MIN_POSITIVE, MAX, all powers of 2, all powers of 10 and their neighbours, subnormals, values printing with 300+ characters, random finite bit patterns: From<f64> gives a valid Float literal, "
+                "try_to_f64()==Ok(x) numerically, and the literal re-lexes inside {a(x: <lit>)} as exactly one Float token; types: every reference over 2 names to list depth 4 (8 thorough) with every non-null combination: "
+                "Display then Type::parse gives the same type. distinct_nontrivial = distinct names/literals accepted by the reference matcher + distinct types + distinct i32 (quick only) + up to 50000 distinct f64 per worker "
+                "(the exhaustive i32 sweep and further f64 values are only counted: counters i32_values_checked_exhaustively, f64_random_values_checked)",
+        "assumptions": COMMON_ASSUMPTIONS + [
+            "IntValue/FloatValue Deserialize are documented to expect 'a string in GraphQL IntValue/FloatValue syntax'; the oracle is that grammar on the whole string, nothing more",
+            "try_to_f64 is compared numerically (==), so -0.0 and 0.0 are not distinguished, as the property only asks for 'the same number'",
+        ],
+        "floors": _per_tier({
+            "name_verdict": ["accept", "reject"],
+            "int_literal_verdict": ["accept", "reject"],
+            "float_literal_verdict": ["accept", "reject"],
+            "name_reject_reason": ["empty", "starts-with-digit", "starts-with-non-ascii", "continues-with-non-ascii", "continues-with-other-ascii"],
+            "float_literal_reject_reason": ["exponent-without-digits", "fraction-without-digits", "leading-zero", "integer-syntax-without-fraction-or-exponent"],
+            "f64_class": ["zero", "negative-zero", "min-positive", "max", "subnormal", "power-of-2", "power-of-10", "random-bits", "printed-with-300+-chars"],
+            "type_list_depth": ["0", "1", "2", "3", "4"],
+        }, "exhaustive", ["names:len<=5", "names:every BMP scalar as first/second character", "literals:len<=5", "types:2 names x list depth<=4"],
+           ["names:len<=5", "names:every BMP scalar as first/second character", "literals:len<=6", "types:2 names x list depth<=8", "i32:all 2^32 values"]),
+        "exhaustive_subspaces": {
+            "quick": ["all 37449 strings of length <= 5 over {a Z _ 0 9 e-acute - space} x 9 Name constructors",
+                      "c, a+c and _+c+_ for every BMP scalar c x Name constructors",
+                      "all 111111 strings of length <= 5 over {0 1 9 - + . e E a space} x IntValue/FloatValue deserialization",
+                      "all 124 type references over 2 names, list depth <= 4, every non-null combination"],
+            "thorough": ["all 37449 strings of length <= 5 over {a Z _ 0 9 e-acute - space} x 9 Name constructors",
+                         "c, a+c and _+c+_ for every BMP scalar c x Name constructors",
+                         "all 1111111 strings of length <= 6 over {0 1 9 - + . e E a space} x IntValue/FloatValue deserialization",
+                         "all 2^32 i32 values through IntValue::from / try_to_i32",
+                         "all 2044 type references over 2 names, list depth <= 8, every non-null combination"],
+        },
+        "technique": "runtime monitoring: differential acceptance against hand-written grammar matchers (bounded-exhaustive), numeric round-trip oracles (exhaustive over i32 in thorough, sampled over f64), print/parse identity on types",
+        "level_text": "Exploration with exhaustive sub-spaces: acceptance is compared with independent matchers on every short string over the stated alphabets, every i32 is converted (thorough), type references are enumerated to a depth bound; f64 is sampled at 10^6-10^7 values aimed at printing extremes.",
+        "level_note": "The Float re-lex clause uses apollo-parser's lexer as the observer (that clause is about apollo-parser by definition); the literal grammar itself is judged by the harness's own matcher.",
+        "design_ref": "DESIGN.md section 6, C10",
+    },
+    "C23": {
+        "budget": {"quick": 25, "thorough": 200},
+        "rule": "strings: ALL strings over {A b _ 1 . ( ) : @ space} up to length 5 (quick) / 7 (thorough), 48 boundary strings, the printed form of every coordinate that exists in 4 fixed schemas and every single-character "
+                "edit of it (delete, replace, insert over 12 characters, adjacent swap), random concatenations of coordinate pieces; each string goes through SchemaCoordinate::from_str and the five per-kind from_str impls and is judged "
+                "by a hand-written matcher of the five forms (same form, same names), then parse(s).to_string()==s and parse(c.to_string())==c for c built from the matcher's reading. "
+                "lookups: every existing coordinate, every (type|zz) x (any name in the schema|zz), every (directive|zz) x name, (type x attribute x name) for every attribute that exists on the type and every name, plus a strided (quick) or full (thorough) sample of the non-existing ones, and everything that parsed above, "
+                "through SchemaCoordinate::lookup and the per-kind lookup / lookup_field / lookup_input_field / lookup_enum_value, judged by the harness's own linear walk over schema.types / directive_definitions "
+                "(Ok iff found; same element address; element name equals the coordinate's last name). "
+                "distinct_nontrivial = distinct strings the matcher accepts + distinct (schema, coordinate) lookups, at most 120000 per worker (the rest only counted)",
+        "assumptions": COMMON_ASSUMPTIONS + [
+            "the four schemas are fixed texts (objects, interfaces, inputs, enums, unions, scalars, directives with arguments, extensions, built-ins and introspection types, the same name under several kinds)",
+        ],
+        "floors": _per_tier({
+            "verdict": ["accept", "reject"],
+            "accepted_form": ["Type", "TypeAttribute", "FieldArgument", "Directive", "DirectiveArgument"],
+            "reject_state": ["expecting-type-name", "expecting-directive-name", "expecting-dot-or-end", "expecting-attribute-name", "expecting-open-paren-or-end",
+                             "expecting-argument-name", "expecting-colon", "expecting-close-paren", "expecting-end-after-close-paren"],
+            "source": ["existing", "single_edit", "cross_product", "field_argument_product", "random_pieces"],
+            "lookup_outcome": ["Type:Type", "Type:no such type", "TypeAttribute:Field", "TypeAttribute:InputField", "TypeAttribute:EnumValue", "TypeAttribute:type has no attributes",
+                               "TypeAttribute:type has no such field", "TypeAttribute:enum has no such value", "TypeAttribute:input object has no such field", "TypeAttribute:no such type",
+                               "FieldArgument:Argument", "FieldArgument:field has no such argument", "FieldArgument:attribute of this type cannot have arguments",
+                               "FieldArgument:type has no such field", "FieldArgument:type has no attributes", "FieldArgument:no such type",
+                               "Directive:Directive", "Directive:no such directive", "DirectiveArgument:Argument", "DirectiveArgument:directive has no such argument",
+                               "DirectiveArgument:no such directive"],
+        }, "exhaustive", ["strings:len<=5"], ["strings:len<=7"]),
+        "exhaustive_subspaces": {
+            "quick": ["all 111111 strings of length <= 5 over {A b _ 1 . ( ) : @ space} x 6 FromStr impls"],
+            "thorough": ["all 11111111 strings of length <= 7 over {A b _ 1 . ( ) : @ space} x 6 FromStr impls"],
+        },
+        "technique": "runtime monitoring: differential acceptance against a hand-written coordinate matcher (bounded-exhaustive), print/parse identities, differential lookup against an independent schema walk",
+        "level_text": "Exploration with an exhaustive sub-space: every string up to the stated length over name characters and coordinate punctuation is judged; lookups are checked for every coordinate and every cross-kind name combination of four fixed schemas.",
+        "level_note": "Schemas are fixed, not generated (DESIGN said 'model schemas'; the model generator is not available to this monitor): lookup coverage is by kind combination, not by schema shape.",
+        "design_ref": "DESIGN.md section 6, C23",
+    },
+    "C03": {
+        "budget": {"quick": 30, "thorough": 360},
+        "rule": "inputs: hand-checked probes, every lexeme/near-lexeme alone and in pairs, three exhaustively enumerated sub-spaces (see exhaustive_subspaces), "
+                "all corpus files, then random number soup, string/escape/block-string soup, lexeme soup, char soup and corpus mutants. Each input is lexed by "
+                "apollo_parser::Lexer (unlimited) and by RefLexer (harness reference for the Oct-2021 lexical grammar); compared: concatenation of token and error data "
+                "in index order == input; accept/reject; on accept the full token sequences (kind, byte start, byte end; whitespace/line-terminator/BOM runs merged on both sides); "
+                "on reject the tokens before the first error and the offset of apollo's first error. "
+                "distinct_nontrivial = distinct inputs for which the reference found at least one non-ignored token or a lexical error (i.e. not empty / ignored-only); "
+                "of the random phase only the first 250 000 inputs per worker are hashed into this count (the rest are evaluated and counted in counters.nontrivial_cases_not_hashed_over_cap)",
+        "assumptions": COMMON_ASSUMPTIONS + [
+            "the oracle is a reference lexer written in the harness from the October 2021 lexical grammar (no GraphQL reference implementation is available offline); it was calibrated on test_data/lexer/{ok,err} and parser/ok",
+            "documented exception encoded in the oracle: braced \\u{...} escapes and \\uXXXX escapes with a surrogate value are lexical errors",
+            "after the first lexical error only the part of the input before it is compared (error recovery is not specified); every suffix of an enumerated string is itself enumerated",
+            "a non-SourceCharacter that ends a comment may be reported either at that character or at the start of the comment",
+        ],
+        "floors": {"any": {
+            "source": ["probe", "lexeme_pair", "lexical-14", "quoted-body-11", "block-body-5", "corpus", "number_soup", "string_soup", "lexeme_soup", "char_soup", "valid_lexeme_stream"],
+            "ref_kind": ["UnicodeBOM", "WhiteSpace", "LineTerminator", "Comment", "Comma", "!", "$", "&", "(", ")", "...", ":", "=", "@", "[", "]", "{", "|", "}",
+                         "Name", "IntValue", "FloatValue", "StringValue-quoted", "StringValue-block"],
+            "ref_error": ["SourceCharacter", "Token-start", "Punctuator-spread", "IntegerPart-sign", "IntegerPart-leading-zero", "FractionalPart-digit",
+                          "ExponentPart-digit", "Number-lookahead", "StringValue-unterminated", "BlockString-unterminated", "EscapedCharacter",
+                          "EscapedUnicode", "EscapedUnicode-surrogate", "SourceCharacter-in-string", "SourceCharacter-in-block-string", "SourceCharacter-in-comment"],
+        }},
+        "exhaustive_subspaces": {
+            "quick": [
+                "all strings of length <= 5 over the 14 symbols {0 1 . e + - \" \\ u a _ # LF SPACE} (579 195 inputs)",
+                "all quoted strings \"BODY\" with BODY of length <= 5 over the 11 symbols {\\ u 0 D 8 a \" { } LF n} (177 156 inputs)",
+                "all block strings \"\"\"BODY\"\"\" with BODY of length <= 7 over the 5 symbols {\" \\ a LF SPACE} (97 656 inputs)",
+            ],
+            "thorough": [
+                "all strings of length <= 6 over the 14 symbols {0 1 . e + - \" \\ u a _ # LF SPACE} (8 108 731 inputs)",
+                "all quoted strings \"BODY\" with BODY of length <= 6 over the 11 symbols {\\ u 0 D 8 a \" { } LF n} (1 948 717 inputs)",
+                "all block strings \"\"\"BODY\"\"\" with BODY of length <= 8 over the 5 symbols {\" \\ a LF SPACE} (488 281 inputs)",
+            ],
+        },
+        "technique": "runtime monitoring: differential comparison of the lexer's item stream with an independent reference lexer on exhaustively enumerated small strings and generated inputs",
+        "level_text": "Exploration: token boundaries, kinds, offsets and the accept/reject verdict are compared with an independent reference lexer on every string of three small sub-spaces (exhaustive within the stated alphabets and lengths) and on 10^6-10^7 generated inputs.",
+        "level_note": "The reference lexer is the harness's own transcription of the October 2021 lexical grammar; the exhaustive claim holds only inside the listed alphabets and length bounds.",
+        "design_ref": "DESIGN.md section 6, C03",
+    },
+    "C04": {
+        "budget": {"quick": 50, "thorough": 480},
+        "rule": "inputs: (1) syntactically valid documents whose nesting depth D is known by construction (generator gen/nested.rs: selection sets, inline fragments, list values, object values, "
+                "mixed values, list types, on argument / directive-argument / variable-type / variable-default / input-value-default / type-system paths, two deep siblings in a row; plus the pure "
+                "nesting families up to depth 121), cross-checked by a token-level recount; every recursion limit r in [0, D+1] (sampled when D > 16), every token limit n in [0, N+1] for documents of at most "
+                "48 (quick) / 120 (thorough) lexer items and sampled n otherwise, and random (n, r) pairs; (2) corpus files and random hostile inputs (lexical errors, unbalanced brackets) with sampled n, "
+                "small r and r = number of opening brackets. Each run is compared with the unlimited lexer's item stream (N items, item end offsets, lexical errors) and with D: clauses (a)-(f) of DESIGN section 6 C04. "
+                "distinct_nontrivial = distinct (text, token limit, recursion limit) triples in which at least one limit error was reported",
+        "assumptions": COMMON_ASSUMPTIONS + [
+            "N is the number of items (tokens, EOF included, and errors) the unlimited apollo_parser::Lexer yields: the relation between limited and unlimited runs is the property, so comparing apollo-rs with itself is intended here",
+            "clause (a) is observed as: token_limit().high <= n+1 and the tree holds no text beyond the end of the n-th unlimited lexer item",
+            "clause (b): when a recursion-limit error is also present only `token-limit error => N > n` is required (whether a second limit error must still be reported is not stated)",
+            "clause (e) exact direction only on generated valid documents with the token limit off; empty lists/objects are never the deepest construct, so D does not depend on how `[]` is counted; on arbitrary inputs only `r >= number of { and [ characters => no recursion-limit error`",
+            "token-limit and recursion-limit errors are told apart by their message text (the API exposes only is_limit())",
+            "inputs whose tree is lossy even without limits, and limited runs whose only text loss is C02's known finding (token after `[` of a list type without item type), are excluded from the text clauses and counted",
+        ],
+        "floors": {"any": {
+            "source": ["nested_generator", "nest_family", "corpus", "corpus_mutant", "char_soup", "lexeme_soup"],
+            "limit_outcome": ["no limit error", "token limit error", "recursion limit error"],
+            "token_limit_position": ["n = 0", "0 < n < N-1 (stops inside the document)", "n = N-1 (only EOF refused)", "n = N (exact fit)", "n > N"],
+            "depth_vs_limit": ["D < r", "D = r", "D = r+1", "D > r+1"],
+            "nest_path": ["selection_set", "inline_fragment", "list_value", "object_value", "list_type", "argument", "directive_argument", "variable_type", "variable_default",
+                          "input_value_default", "type_system_definition", "two_deep_sibling_list_items", "two_deep_sibling_object_fields", "two_deep_sibling_selections"],
+        }},
+        "technique": "runtime monitoring: metamorphic comparison of limited parses with the unlimited lexer stream, plus generated documents whose nesting depth is known by construction",
+        "level_text": "Exploration: every token limit (small documents) / sampled token limits and every recursion limit around the known depth are executed on 10^4-10^5 generated documents and hostile inputs; clauses (a)-(f) are asserted on each run.",
+        "level_note": "Depth is known by construction and recounted at token level; the unlimited lexer run of the same build is the metamorphic baseline; the compiler's reached-figures are compared with the parser's for the same text and limits.",
+        "design_ref": "DESIGN.md section 6, C04",
+    },
+    "C06": {
+        "budget": {"quick": 40, "thorough": 360},
+        "rule": "inputs: string literals that RefLexer accepts as exactly one StringValue token: regression list, two exhaustively enumerated sub-spaces (see exhaustive_subspaces), then random block strings "
+                "(mixed space/tab indentation, LF / CRLF / CR, whitespace-only lines shorter and longer than the common indent, BOM, escaped triple quotes) and random quoted strings (all escapes, \\uXXXX over the "
+                "non-surrogate BMP, raw multi-byte text). Each literal is placed in a host document; compared with RefString (spec static semantics, BlockStringValue transcribed step by step): "
+                "String::from(&cst::StringValue) for all 6 StringValue nodes, the compiler's ast::Document::parse values (description, field-argument default, input-field default, variable default, argument, "
+                "directive argument) and Schema::parse values (description, field-argument default, input-field default); panics are caught. "
+                "distinct_nontrivial = distinct literals whose reference value differs from the raw text between the quotes (an escape was decoded, indentation or lines were removed, or a line terminator was normalised)",
+        "assumptions": COMMON_ASSUMPTIONS + [
+            "the oracle is the harness's transcription of the October 2021 StringValue static semantics and BlockStringValue(); lexical validity is decided by RefLexer (so literals containing C0 controls, which only apollo accepts, are outside the quantifier)",
+            "a host the parser reports errors for is skipped and counted (acceptance is C03/C05's subject)",
+            "when the syntax-tree value is wrong, compiler hosts that merely repeat it are not reported again (one root cause, one signature)",
+        ],
+        "floors": {"any": {
+            "source": ["regression", "block-body-8", "quoted-body-10", "random_block", "random_quoted"],
+            "host": ["cst", "ast_description", "ast_field_argument_default", "ast_input_field_default", "ast_variable_default", "ast_argument", "ast_directive_argument",
+                     "schema_description", "schema_field_argument_default", "schema_input_field_default"],
+            "escape": ["\\\"", "\\\\", "\\/", "\\b", "\\f", "\\n", "\\r", "\\t", "\\uXXXX", "raw non-ASCII"],
+            "block_feature": ["escaped triple quote", "CRLF", "lone CR", "LF", "first line indented and kept", "leading blank line", "trailing blank line", "common indent > 0",
+                              "whitespace-only line shorter than common indent", "whitespace-only line longer than common indent", "first line less indented than common indent",
+                              "unequal indents", "tab in indentation", "non-empty body with empty value"],
+        }},
+        "exhaustive_subspaces": {
+            "quick": [
+                "all block strings \"\"\"BODY\"\"\" with BODY of length <= 6 over the 8 symbols {SPACE TAB LF CR a \" \\ e-acute} (299 593 candidate bodies; those that are one valid literal are checked)",
+                "all quoted strings \"BODY\" with BODY of length <= 5 over the 10 symbols {a \" \\ n u 0 D 8 e-acute TAB} (111 111 candidate bodies; those that are one valid literal are checked)",
+            ],
+            "thorough": [
+                "all block strings \"\"\"BODY\"\"\" with BODY of length <= 6 over the 8 symbols {SPACE TAB LF CR a \" \\ e-acute} (299 593 candidate bodies; those that are one valid literal are checked)",
+                "all quoted strings \"BODY\" with BODY of length <= 6 over the 10 symbols {a \" \\ n u 0 D 8 e-acute TAB} (1 111 111 candidate bodies; those that are one valid literal are checked)",
+            ],
+        },
+        "technique": "runtime monitoring: differential comparison of decoded string values with a reference transcription of the specification's static semantics, on exhaustively enumerated and generated literals, in every host that stores a string",
+        "level_text": "Exploration: the decoded value of every valid literal of two small sub-spaces (exhaustive within the stated alphabets and lengths) and of 10^6-10^7 generated literals is compared with the specification's value in ten observation points; panics are caught.",
+        "level_note": "The reference is the harness's own transcription of BlockStringValue() and the escape table; exhaustive only inside the listed alphabets and length bounds.",
+        "design_ref": "DESIGN.md section 6, C06",
+    },
+    "C05": {
+        "budget": {"quick": 40, "thorough": 480},
+        "rule": "inputs: ~110 hand-judged boundary documents, every corpus file, then syntax-level generated VALID documents (quota-driven over a checklist of 66 optional parts present/absent and 10 alternative sets incl. all 18 definition forms, 12 value kinds, 19 directive locations; keywords used as names wherever the grammar allows any Name; random ignored tokens), "
+                "and for each generated document: every single-token deletion, every bracket group emptied or dropped, a description put before every top-level definition, a variable substituted for every value, 24 random token-level mutants (1-3 delete/insert/swap/duplicate/replace/truncate steps), plus mutants of corpus files and splices; thorough adds all two-token deletions of small documents. "
+                "Each text is judged by apollo_parser::Parser::parse().errors() emptiness (and, when both accept, the CST's top-level (kind, name) list) against RefGrammar, an independent recogniser of the October 2021 grammar. "
+                "distinct_nontrivial = distinct texts on which the reference's verdict was decided by the grammar proper (accepted, or rejected for a non-lexical reason)",
+        "assumptions": COMMON_ASSUMPTIONS + [
+            "the oracle is a reference recogniser written in the harness from the October 2021 specification text (no external GraphQL implementation is available offline); it shares no code with apollo-parser and was calibrated on apollo-parser/test_data/parser/{ok,err} with every disagreement triaged by hand",
+            "outside the claim, counted under skipped:*: inputs on which apollo reports a recursion/token *limit* error (resource bound, not a grammar verdict), inputs nested deeper than the reference's own cap (3000), inputs the reference accepts that contain a lone-surrogate \\uXXXX escape (apollo's documented limitation), inputs on which the parser panics (C01)",
+            "SourceCharacter is taken as TAB, LF, CR and every scalar from U+0020 up (supplementary-plane scalars accepted, as in every implementation and the later spec text)",
+        ],
+        "floors": {"any": {
+            "verdict": ["accept", "reject"],
+            "checklist": ["all-decision-outcomes-generated"],
+            "source": ["boundary", "corpus", "generated", "delete_one", "empty_group", "drop_group", "describe_definition", "variable_for_value", "mutant", "corpus_mutant"],
+            "production_verdict": [
+                "OperationDefinition:accept", "FragmentDefinition:accept", "SchemaDefinition:accept", "ScalarTypeDefinition:accept",
+                "ObjectTypeDefinition:accept", "InterfaceTypeDefinition:accept", "UnionTypeDefinition:accept", "EnumTypeDefinition:accept",
+                "InputObjectTypeDefinition:accept", "DirectiveDefinition:accept", "SchemaExtension:accept", "ScalarTypeExtension:accept",
+                "ObjectTypeExtension:accept", "InterfaceTypeExtension:accept", "UnionTypeExtension:accept", "EnumTypeExtension:accept",
+                "InputObjectTypeExtension:accept",
+                "Definition:reject", "SelectionSet:reject", "Arguments:reject", "Argument:reject", "ObjectField:reject", "VariableDefinitions:reject",
+                "DefaultValue:reject", "Directives[Const]:reject", "FragmentName:reject", "TypeCondition:reject", "InlineFragment:reject",
+                "SchemaDefinition:reject", "SchemaExtension:reject", "RootOperationTypeDefinition:reject", "FieldsDefinition:reject",
+                "FieldDefinition:reject", "ArgumentsDefinition:reject", "InputFieldsDefinition:reject", "InputValueDefinition:reject",
+                "EnumValuesDefinition:reject", "EnumValueDefinition:reject", "ImplementsInterfaces:reject", "UnionMemberTypes:reject",
+                "DirectiveDefinition:reject", "DirectiveLocations:reject", "ScalarTypeExtension:reject", "ObjectTypeExtension:reject",
+                "InterfaceTypeExtension:reject", "UnionTypeExtension:reject", "EnumTypeExtension:reject", "InputObjectTypeExtension:reject",
+                "TypeSystemExtension:reject", "ListType:reject", "Value:reject", "Token:reject",
+            ],
+        }},
+        "technique": "runtime monitoring: differential accept/reject and top-level definition list against an independent reference recogniser, on generated valid documents and boundary-aimed token-level mutants",
+        "level_text": "Exploration: 10^6-10^8 documents on both sides of the grammar boundary (every production with its optional parts present and absent, and systematic single-token mutations of each) are judged by apollo-parser and by an independent Oct-2021 recogniser; any difference in acceptance or in the top-level definition list is a violation.",
+        "level_note": "Trusts the harness's own reference recogniser (written from the spec text, unit-tested on ~100 hand-judged documents, calibrated on the parser corpus) as the definition of the grammar; lexical corner cases belong to C03 and appear here only through mutants.",
+        "design_ref": "DESIGN.md section 6, C05",
+    },
+    "C07": {
+        "budget": {"quick": 30, "thorough": 300},
+        "rule": "inputs: prefix + core + suffix. Exhaustive: 60 type cores (names Int/T, list depth <= 3, each level nullable or not) and 16 selection cores x all 343 token sequences of length 0-2 over the 18-symbol alphabet on one side (prefix only, suffix only; spaced and tight joining); 4 type cores and 2 (thorough: 4) selection cores x all 343x343 (prefix, suffix) pairs; then random cores (type depth <= 3, selections generated from the host schema to depth 3) with random affixes of 0-8 tokens and random separators. "
+                "Each text goes through Parser::parse_type + ast::Type::parse, or Parser::parse_selection_set + FieldSet::parse + FieldSet::parse_and_validate (host schema, type Query); a violation is 'no error reported' while RefGrammar says the significant tokens are not exactly one Type / one selection set (outer braces optional). "
+                "distinct_nontrivial = distinct (kind, text) on which at least one entry point reported no error (the implication's antecedent held, so the reference verdict decided the case)",
+        "assumptions": COMMON_ASSUMPTIONS + [
+            "only the direction stated by the property is checked (no error => exactly one construct); apollo rejecting more than the grammar (unknown fields, validation errors, lone-surrogate escapes) is never a finding here",
+            "the oracle is RefGrammar's Type / SelectionSet recogniser written in the harness from the October 2021 specification text",
+        ],
+        "floors": {"any": {
+            "source": ["regression", "exhaustive_prefix", "exhaustive_suffix", "exhaustive_pair", "random_affixes"],
+            "reference_verdict": ["type:accept", "type:reject", "field_set:accept", "field_set:reject"],
+            "entry_outcome": [
+                "Parser::parse_type:no-error:reference-accepts", "ast::Type::parse:no-error:reference-accepts",
+                "Parser::parse_selection_set:no-error:reference-accepts", "executable::FieldSet::parse:no-error:reference-accepts",
+                "executable::FieldSet::parse_and_validate:no-error:reference-accepts",
+                "Parser::parse_type:error:reference-rejects", "ast::Type::parse:error:reference-rejects",
+                "Parser::parse_selection_set:error:reference-rejects", "executable::FieldSet::parse:error:reference-rejects",
+                "executable::FieldSet::parse_and_validate:error:reference-rejects",
+            ],
+        }},
+        "exhaustive_subspaces": {
+            "quick": [
+                "60 type cores (names {Int,T}, list depth<=3, nullable/non-null per level) x {prefix in S<=2, suffix empty} U {prefix empty, suffix in S<=2}, S = 18 symbols ] [ ! } { ) ( , b Int \"s\" 1 $ @ ... : e-acute '# c\\n', |S<=2| = 343, spaced and tight joining",
+                "16 fixed selection cores x the same one-sided affix space",
+                "type cores {Int, Int!, [Int], [[T!]]!} x all 343x343 (prefix, suffix) pairs",
+                "selection cores {a, { a }} x all 343x343 (prefix, suffix) pairs",
+            ],
+            "thorough": [
+                "60 type cores (names {Int,T}, list depth<=3, nullable/non-null per level) x {prefix in S<=2, suffix empty} U {prefix empty, suffix in S<=2}, S = 18 symbols ] [ ! } { ) ( , b Int \"s\" 1 $ @ ... : e-acute '# c\\n', |S<=2| = 343, spaced and tight joining",
+                "16 fixed selection cores x the same one-sided affix space",
+                "type cores {Int, Int!, [Int], [[T!]]!} x all 343x343 (prefix, suffix) pairs",
+                "selection cores {a, { a }, c { a }, b(x: 1) @d} x all 343x343 (prefix, suffix) pairs",
+            ],
+        },
+        "technique": "runtime monitoring: one-directional differential check of five standalone parse entry points against an independent Type / SelectionSet recogniser over exhaustively enumerated and random prefix+core+suffix inputs",
+        "level_text": "Exploration with exhaustive sub-spaces: every token sequence of length <= 2 over 18 symbols is put before and after every enumerated type shape and fixed selection core (and on both sides of a few), plus random longer affixes; each input is run through all five entry points and 'no error' is compared with an independent recogniser.",
+        "level_note": "Trusts the harness's reference recogniser for Type and SelectionSet (a few dozen lines each, written from the spec grammar); the enumeration is complete for the stated bounds, everything beyond them is sampled.",
+        "design_ref": "DESIGN.md section 6, C07",
+    },
+    "C14": {
+        "budget": {"quick": 50, "thorough": 720},
+        "rule": "refuting event: Schema::parse_and_validate(text).is_ok() != RefSchemaRules(model).is_empty(). Path A (model): documents from the typed schema generator, "
+                "one mutator family per reference rule id (each violating exactly that rule at a random applicable site), validity-preserving boundary edits, pairs of mutators; "
+                "every model is printed plain and with random trivia and judged end to end independently (apollo sees text, the reference sees the model). "
+                "Path B (parsed): corpus files, apollo-smith output and re-parsed trivia prints of path-A models, converted from apollo's AST (type-system definitions only, syntax errors skipped). "
+                "Cases inside a documented don't-care band are skipped and counted. Disagreements are minimised greedily on the model before they are reported. "
+                "distinct_nontrivial = distinct documents (FNV of the plain print) rejected by the reference for exactly one rule id, or accepted with at least 3 type kinds",
+        "assumptions": COMMON_ASSUMPTIONS + [
+            "the oracle is a reference model written in the harness (refmodel/schema_rules.rs) from the October 2021 specification text and graphql-js v16 semantics; it is not graphql-js or graphql-core, which do not exist offline",
+            "oracle parameters (documented deliberate differences): default values are not validated (apollo-rs issue 928); a built-in directive may be redefined once (issue 656); constant directive arguments in SDL are type-checked",
+            "don't-care bands where the spec text and graphql-js v16 differ or the text leaves a choice are neither generated nor judged: @deprecated on required arguments/input fields, extra non-null argument with default on an implementing field, "
+            "extensions of built-in scalars/introspection types, schema extension with root operations but no schema definition, non-object type named Mutation/Subscription under an implicit schema, references to introspection types, non-finite float literals, "
+            "executable definitions inside a schema document, more than 24 input objects or directive definitions (apollo's validation recursion limit)",
+            "directive-definition cycles are judged by the specification sentence (graphql-js v16 has no such rule)",
+        ],
+        "floors": {"any": {"rule": [f"{r}:{v}" for r in (
+            "query-root", "root-types-object", "root-types-distinct", "one-schema-definition", "unique-operation-types", "unique-type-names",
+            "builtin-scalar-redefined", "unique-directive-names", "extension-target", "unique-field-names", "unique-argument-names",
+            "unique-enum-values", "unique-input-fields", "unique-union-members", "unique-implements", "known-types", "output-types", "input-types",
+            "non-empty-fields", "non-empty-enum-values", "non-empty-union-members", "non-empty-input-fields", "implements-interface-kind",
+            "no-self-implementation", "transitive-interfaces", "interface-fields-present", "interface-field-type-covariant", "interface-args-present",
+            "interface-arg-type-equal", "extra-args-optional", "union-members-object", "input-object-cycles", "reserved-name-type", "reserved-name-field",
+            "reserved-name-argument", "reserved-name-enum-value", "reserved-name-input-field", "reserved-name-directive", "enum-value-keyword",
+            "directive-cycles", "directives-known", "directive-location", "directive-unique", "directive-args-known", "directive-args-unique",
+            "directive-args-required", "value-type", "value-object-fields-known", "value-object-fields-unique", "value-object-fields-required",
+        ) for v in ("violated", "satisfied")],
+            "source": ["model:generated-valid", "model:mutant", "model:neutral", "model:two-mutants", "parsed:compiler_ok", "parsed:compiler_diag", "parsed:smith"]}},
+        "technique": "runtime monitoring: differential reference-model monitor over generated, mutated and corpus schema documents",
+        "level_text": "Exploration: the accept/reject verdict of Schema::parse_and_validate is compared with an independent reference implementation of the type-system rules on 10^4-10^6 documents; every rule id is observed both violated (alone) and satisfied non-vacuously on the end-to-end path.",
+        "level_note": "The oracle is a reference model written in the harness from the October 2021 spec text and graphql-js v16 semantics, NOT graphql-js/graphql-core themselves (they do not exist offline); it was calibrated on the repository corpora (test_data/ok accepted, schema-level test_data/diagnostics rejected, every disagreement triaged by hand). On the parsed path only the validation logic is independent of apollo-rs, not the parsing.",
+        "design_ref": "DESIGN.md section 6, C14; Appendix B",
+    },
+    "C15": {
+        "budget": {"quick": 45, "thorough": 600},
+        "rule": "every Valid<Schema> returned by Schema::parse_and_validate is walked through the public API (schema_definition, types, directive_definitions) and must satisfy: query root present; roots are pairwise distinct object types; "
+                "every referenced type exists with the right kind; implementers satisfy field / argument / transitive-interface contracts (recomputed); no non-null input-object cycle (own DFS); no user-defined name starts with __; "
+                "the type map holds a built-in scalar if and only if some field, argument, input field or directive-definition argument references it (built-in definitions included). "
+                "Workload: regression witnesses, corpus schemas, C14's model workload (valid documents, mutants, boundary edits, pairs; plain and trivia prints), apollo-smith output, and hill climbing: starting from each invalid mutant, "
+                "random repairs/mutations are kept when apollo's diagnostic count does not grow, and every accepted schema met on the way is checked. "
+                "distinct_nontrivial = distinct accepted schema texts on which at least 5 of the 7 invariant clauses were decided on a real instance",
+        "assumptions": COMMON_ASSUMPTIONS + [
+            "only schemas apollo accepts are judged; whether acceptance itself is right is C14's business (the checker shares no code with RefSchemaRules)",
+            "'referenced' counts references from built-in definitions too (introspection types and built-in directives are part of every schema), so String and Boolean are always expected in the type map; this is what schema/validation.rs documents and what the property sentence says",
+            "interface self-implementation and name uniqueness are not in the property statement and are not demanded here",
+        ],
+        "floors": {"any": {
+            "clause": ["query-root:exercised", "roots:exercised", "references:exercised", "implementation:exercised", "implementation:with-interface-fields",
+                       "input-cycle:exercised", "input-cycle:with-non-null-edges", "reserved-names:exercised", "builtin-scalars:exercised"],
+            "builtin_scalars_in_type_map": ["2", "3", "4", "5"],
+            "source": ["c14-workload-generated-valid", "c14-workload-neutral", "hill-climb", "corpus", "smith", "regression"]}},
+        "technique": "runtime monitoring: structural invariant checker at the quiescent point right after validation succeeds, workload concentrated on the acceptance boundary by hill climbing",
+        "level_text": "Exploration: the stated invariants are asserted on every schema apollo accepts out of 10^4-10^6 generated, mutated, repaired and corpus documents.",
+        "level_note": "Trusts the public Schema API as the observation of what was accepted. Hill climbing is guided by apollo's own diagnostic count (search heuristic only, never a verdict).",
+        "design_ref": "DESIGN.md section 6, C15",
+    },
+    "C17": {
+        "budget": {"quick": 60, "thorough": 900},
+        "rule": "cases: (schema, executable document) pairs whose schema apollo accepts. Path A (model path): schema_gen x exec_gen pairs and one mutator family per reference rule "
+                "(gen/exec_mut.rs, plus validity-preserving families), printed with print_plain / print_trivia and judged on the model; path B (parsed path): fixed witnesses, the "
+                "apollo-compiler/test_data/{ok,diagnostics} files that hold both a schema and executable definitions, and apollo-smith documents, converted with from_ast and split. "
+                "Refuting event: ExecutableDocument::parse_and_validate(..).is_ok() != RefExecRules(flat schema, document).is_empty(). "
+                "distinct_nontrivial = distinct (schema text, document text) pairs on which both verdicts were obtained and the reference was outside its don't-care bands; "
+                "class set 'rule' = reference rule id x verdict on path A, 'rule_parsed_path' the same on path B",
+        "assumptions": COMMON_ASSUMPTIONS + [
+            "the oracle is RefExecRules (harness/src/refmodel/exec_rules.rs), written from the October 2021 spec text and graphql-js v16 semantics; it is not graphql-js or graphql-core, neither of which exists offline",
+            "deliberate differences are explicit oracle parameters: operations without a defined root type are rejected; @skip/@include on subscription root selections are rejected; apollo's @defer rules apply when the schema defines @defer (never generated; a @defer under @skip/@include in a subscription is a don't-care)",
+            "don't-care bands (counted, never a verdict): Float literals overflowing f64, variables nested in a list literal given to a custom scalar, merged arguments differing only in input-object field order",
+            "schemas that apollo rejects are skipped (C14's business); panics are C21's",
+        ],
+        "floors": {"any": {"rule": [r + v for r in _C17_RULES for v in (":violated", ":satisfied")],
+                           "source": ["witness", "corpus", "generated", "mutant", "smith"]}},
+        "technique": "runtime monitoring: differential reference-model monitor (one function per spec rule, naive pairwise field merging) over generated pairs, per-rule mutants, corpora and apollo-smith output, with greedy model-level witness minimisation",
+        "level_text": "Exploration: apollo's accept/reject verdict is compared with an independent reference implementation of the spec's executable validation rules on 10^4-10^6 generated pairs and per-rule mutants; every reference rule is observed with both verdicts in every run.",
+        "level_note": "The oracle is a reference model written in the harness from the October 2021 specification text and graphql-js v16 semantics, NOT graphql-js/graphql-core themselves (they do not exist offline); on the model path the oracle never sees apollo's parser, on the parsed path only the validation logic is independent.",
+        "design_ref": "DESIGN.md section 6, C17",
+    },
+    "C18": {
+        "budget": {"quick": 40, "thorough": 420},
+        "rule": "cases: C17's (schema, document) pairs, valid or not (generated, every mutator family, corpus pairs, fixed meta-field / condition-less inline fragment documents, apollo-smith); "
+                "ExecutableDocument::parse's Ok value or err.partial is walked with an own parent-type traversal: Field.definition == schema.type_field(parent, name) and agrees with the harness schema model, "
+                "selection_set.ty of fields / inline fragments / fragment definitions / operations; for documents parse_and_validate accepts also: spreads defined and acyclic, used variables defined, "
+                "composite/leaf sub-selection rule, root_fields()/all_fields() == own traversal as multisets of Node<Field> addresses. "
+                "distinct_nontrivial = distinct (schema text, document text) pairs whose built document held at least one field",
+        "assumptions": COMMON_ASSUMPTIONS + [
+            "field definitions are compared structurally (==) with schema.type_field and by name/type/arguments with the harness's own flattened schema model",
+            "the type condition of a fragment definition is taken from the harness model of the text (apollo exposes it only as selection_set.ty)",
+        ],
+        "floors": {"any": {"document": ["valid", "built, invalid", "partial"],
+                           "construct": ["inline fragment without type condition", "meta-field", "iterators over a document with fragments"],
+                           "source": ["fixed", "corpus", "generated", "mutant"]}},
+        "technique": "runtime monitoring: invariant walk of every built ExecutableDocument with an independent parent-type traversal and schema model; iterator outputs compared with an own traversal by node identity",
+        "level_text": "Exploration: the typing annotations of every document built from 10^4-10^6 valid and invalid generated pairs are checked against an independent traversal, and the validity guarantees and iterators on the valid ones.",
+        "level_note": "Trusts Node<Field> addresses as field identity and apollo's parser for the text-to-AST step; validity is apollo's own parse_and_validate verdict, so C17 defects that accept invalid documents surface here as broken guarantees.",
+        "design_ref": "DESIGN.md section 6, C18",
+    },
+    "C20": {
+        "budget": {"quick": 30, "thorough": 300},
+        "rule": "cases: executable documents (generated with and without directives, every mutator family, corpus pairs, fixed witnesses, apollo-smith) with the schema they were generated for; "
+                "ast::Document::validate_standalone_executable() is called on the AST of the executable definitions only. Refuting events: Err on a document that parse_and_validate accepts against its schema; "
+                "any diagnostic, on any document, whose unstable_error_name is outside the schema-independent set. "
+                "distinct_nontrivial = distinct (schema, document) pairs that validate against their schema (the antecedent of the property)",
+        "assumptions": COMMON_ASSUMPTIONS + [
+            "'validates against some schema' is witnessed by the schema the document was generated for, judged by apollo itself: the property relates two apollo entry points",
+            "apollo's @defer diagnostics are a counted don't-care (never generated)",
+        ],
+        "floors": {"any": {"valid_document": ["with directives", "without directives"],
+                           "invalid_document": ["standalone err", "standalone ok"],
+                           "source": ["fixed", "corpus", "generated", "mutant"]}},
+        "technique": "runtime monitoring: metamorphic monitor relating schema-based and schema-less validation of the same document, plus a diagnostic-name allow-list",
+        "level_text": "Exploration: for 10^4-10^5 documents valid against a generated schema the schema-less validation must also succeed, and on all generated and mutated documents it may only emit schema-independent diagnostics.",
+        "level_note": "Trusts unstable_error_name() as the identity of a diagnostic; the allow-list is the one of the property statement plus the recursion-limit diagnostics.",
+        "design_ref": "DESIGN.md section 6, C20",
     },
 }
 
